@@ -193,8 +193,16 @@ func cmdCheck(args []string) int {
 
 	// adequacy run (thorough only): never changes the verdict
 	var adequacy []MutantResult
+	var seedRes []SeedResult
 	if *tier == "thorough" {
 		adequacy = runMutants(*repo, *prop, pd.Rules, "thorough")
+		base := map[string]bool{}
+		for _, o := range rep.Obligations {
+			if !o.OK {
+				base[o.Rule+"|"+o.Construct] = true
+			}
+		}
+		seedRes = runSeeds(*repo, *verif, *prop, pd.Rules, "thorough", base)
 	}
 
 	// evidence
@@ -272,6 +280,14 @@ func cmdCheck(args []string) int {
 			}
 		}
 		cov["adequacy_summary"] = fmt.Sprintf("killed=%d missed=%d skipped=%d", k, m, s)
+	}
+	if seedRes != nil {
+		cov["adequacy_seeded_changes"] = seedRes
+		for _, sr := range seedRes {
+			if sr.Outcome != "selftest-killed" {
+				fmt.Fprintf(os.Stderr, "adequacy: stored seeded change %s: %s %s\n", sr.ID, sr.Outcome, sr.Note)
+			}
+		}
 	}
 	ev := Evidence{PropertyID: *prop, Tier: *tier, Seed: seed, Level: "other", Coverage: cov,
 		Assumptions: append([]string{
